@@ -43,24 +43,31 @@ def r1_options_reach_assembler(ctx: Ctx) -> None:
     for need in ("mapping", "input_file", "output_file", "format", "copier_header", "defines", "dump_symbols"):
         if need not in dests:
             raise AnalysisError(f"cli_main: option destination {need} not found among {sorted(dests)}")
-    branch = [s for s in cli.node.body if isinstance(s, ast.If) and "args.format" in unparse(s.test)]
-    if len(branch) != 1:
-        raise AnalysisError("cli_main: format branch not found")
-    arms, orelse = if_chain(branch[0])
-    named = [(unparse(t), b) for t, b in arms] + ([("else", orelse)] if orelse else [])
-    ctx.check(len(named) >= 2 and bool(orelse), "cli_main:format-arms", "every format value reaches some entry point")
-    for label, body in named:
-        used = {n.attr for s in body for n in ast.walk(s) if isinstance(n, ast.Attribute) and unparse(n.value) == "args"}
-        for d in ("input_file", "output_file", "mapping"):
+    # what each entry point receives, bound to the callee's parameters by position or keyword (any branch layout)
+    from ..match import canon as _canon12
+
+    wanted = {"program.assemble_as_patch": ("Program.assemble_as_patch", "ips", ["input_file", "output_file", "mapping", "copier_header"]),
+              "program.assemble": ("Program.assemble", "else", ["input_file", "output_file", "mapping"])}
+    for entry, (callee_q, label, dests_) in wanted.items():
+        sites = [c for c in calls_in(cli.node) if call_name(c) == entry]
+        if len(sites) != 1:
+            raise AnalysisError(f"cli_main: expected one call of {entry}")
+        callee = ctx.repo.func(PROGRAM, callee_q).params()[1:]
+        if len(callee) < len(dests_):
+            raise AnalysisError(f"{callee_q}: fewer parameters than options to pass")
+        got = []
+        for i, (par, d) in enumerate(zip(callee, dests_)):
+            a = kwarg(sites[0], par, i)
+            text = _canon12(cli.node, a, keep=["args"]) if a is not None else None
+            got.append(text)
             ctx.count("option_arm_pairs")
-            ctx.check(d in used, f"cli_main[{label}]:{d}", f"option `{d}` is passed to the assembler on this format arm (used: {sorted(used)})")
-    ips = [b for t, b in named if "'ips'" in t]
-    if ips:
-        used = {n.attr for s in ips[0] for n in ast.walk(s) if isinstance(n, ast.Attribute) and unparse(n.value) == "args"}
-        ctx.check("copier_header" in used, "cli_main[ips]:copier_header", "the copier-header flag reaches the IPS writer")
-        calls = [c for s in ips[0] for c in calls_in(s) if call_name(c) == "program.assemble_as_patch"]
-        ok = len(calls) == 1 and [unparse(a) for a in calls[0].args] == ["args.input_file", "args.output_file", "args.mapping", "args.copier_header"]
-        ctx.check(ok, "cli_main[ips]:argument-order", "assemble_as_patch(input, output, mapping, copier_header)")
+            if d == "copier_header":
+                ctx.check(text == "args.copier_header", "cli_main[ips]:copier_header", "the copier-header flag reaches the IPS writer")
+            else:
+                ctx.check(text == f"args.{d}", f"cli_main[{label}]:{d}", f"option `{d}` is passed to the assembler's `{par}` on this format arm (found: {text})")
+        if label == "ips":
+            ctx.check(got == [f"args.{d}" for d in dests_] and len(sites[0].args) + len(sites[0].keywords) == len(dests_), "cli_main[ips]:argument-order",
+                      "assemble_as_patch(input, output, mapping, copier_header)")
     # `-f ips` selects the patch writer, anything else the flat image: the condition each entry point is called under
     gc = CFG(cli.node)
     for entry, want in (("program.assemble_as_patch", True), ("program.assemble", False)):
